@@ -402,6 +402,13 @@ def plan(ctx, pid):
                   enforce=enforce or ('StringReader_' + fn), replace=replace or [], defines=list(D), replay=RP(fn), **kw)
         groups.append(g)
         return g
+    if pid == 'C01':
+        # the sign-extending 24/48-bit accessors are proved against the CONTRACT of ext24 / ext48 (replaced calls); the two contracts
+        # are discharged here as well (same groups as in C03), so that C01 stands on its own for the helpers its anchors name
+        for fn in ('ext24', 'ext48'):
+            groups.append(Group(name='Encoding.' + fn, harness='harness/C03/leaf.c', entry='h_' + fn, function=fn, enforce=fn,
+                                clause_note='contracts/C03_leaf.h: low bits preserved, bits above are copies of the sign bit (bit 23 / bit 47)',
+                                replay=Replay(mode=fn, **c03.RP)))
     G('pgetv')
     G('getv')
     for w in ('24', '48'):
